@@ -6,8 +6,10 @@ package c03
 import (
 	"encoding/json"
 	"fmt"
+	"math/rand"
 	"net/http"
 	"net/http/httptest"
+	"runtime"
 	"sort"
 	"strings"
 	"sync"
@@ -655,4 +657,108 @@ func hasError(pubs []*packets.PublishPacket) bool {
 		}
 	}
 	return false
+}
+
+// ---------------------------------------------------------------------------------------------
+
+// TestAuthorizeConcurrent: many connections are authorized at the same time (the broker shares one cipher, one
+// contract provider and one ban state between all of them). Every goroutine asks about its own keys - valid ones,
+// keys of other contracts, keys with a wrong signature, expired ones, damaged spellings - and must get, every time,
+// the answer of the reference predicate, whatever the other goroutines present at that moment.
+func TestAuthorizeConcurrent(t *testing.T) {
+	rounds := vkit.N(6)
+	for round := 0; round < rounds; round++ {
+		v := 1 + round%3
+		e := getEnv(v)
+		type q struct {
+			c    AuthCase
+			enc  string
+			ch   *security.Channel
+			want bool
+		}
+		const G = 8
+		qs := make([][]q, G)
+		rng := rand.New(rand.NewSource(vkit.Seed() + int64(round)))
+		for g := 0; g < G; g++ {
+			for i := 0; i < 12; i++ {
+				c := AuthCase{Lic: v, SigOK: rng.Intn(5) != 0, MasterOK: rng.Intn(7) != 0, Contract: []string{"own", "own", "own", "other", "unknown", "http-allowed", "http-refused"}[rng.Intn(7)],
+					Expiry: []string{"none", "none", "future", "past"}[rng.Intn(4)], Target: authTargets[rng.Intn(len(authTargets))], Request: authRequests[rng.Intn(len(authRequests))],
+					Need: needs[rng.Intn(len(needs))], Perm: uint8(rng.Intn(128) << 1), Salt: uint16(rng.Intn(65536)), Ban: "no"}
+				if rng.Intn(8) == 0 {
+					c.Garbage = 1 + rng.Intn(4)
+				}
+				if trailingPlus(c.Target) {
+					c.Target = "a/#/"
+				}
+				cov, unspec := covers(c.Target, c.Request)
+				if unspec {
+					c.Request = "a/"
+					cov, _ = covers(c.Target, c.Request)
+				}
+				lic := e.b.Lic
+				switch c.Contract {
+				case "other":
+					lic = e.other
+				case "unknown":
+					lic = e.unk
+				case "http-allowed", "http-refused":
+					lic = e.http[c.Contract]
+				}
+				k := security.Key(make([]byte, 24))
+				k.SetSalt(c.Salt)
+				k.SetMaster(uint16(lic.Master()))
+				if !c.MasterOK {
+					k.SetMaster(uint16(lic.Master()) + 1)
+				}
+				k.SetContract(lic.Contract())
+				k.SetSignature(lic.Signature())
+				if !c.SigOK {
+					k.SetSignature(lic.Signature() ^ 1)
+				}
+				k.SetPermissions(c.Perm)
+				k.SetTarget(c.Target)
+				switch c.Expiry {
+				case "past":
+					k.SetExpires(time.Now().Add(-time.Hour))
+				case "future":
+					k.SetExpires(time.Now().Add(time.Hour))
+				}
+				enc := e.b.Encrypt(k)
+				if c.Garbage != 0 {
+					enc = enc[:int(c.Salt)%32] + string([]byte{badBytes[int(c.Salt/32)%len(badBytes)]}) + enc[int(c.Salt)%32+1:]
+				}
+				if e.banned[enc] {
+					continue
+				}
+				want := c.Garbage == 0 && c.Expiry != "past" && c.Contract != "unknown" && c.Contract != "http-refused" && c.SigOK && c.MasterOK && c.Perm&c.Need == c.Need && cov
+				qs[g] = append(qs[g], q{c, enc, security.ParseChannel([]byte(enc + "/" + c.Request)), want})
+			}
+		}
+		var wg sync.WaitGroup
+		errs := make(chan string, G)
+		for g := 0; g < G; g++ {
+			wg.Add(1)
+			go func(g int) {
+				defer wg.Done()
+				for it := 0; it < 400; it++ {
+					x := qs[g][it%len(qs[g])]
+					if _, _, got := e.b.S.Authorize(x.ch, x.c.Need); got != x.want {
+						errs <- fmt.Sprintf("with %d goroutines authorizing at once: Authorize(%+v) = %v, expected %v", G, x.c, got, x.want)
+						return
+					}
+					if it%16 == 0 {
+						runtime.Gosched()
+					}
+				}
+			}(g)
+		}
+		wg.Wait()
+		select {
+		case m := <-errs:
+			vkit.ReportFailure(t.Name(), map[string]int{"round": round, "license": v}, m, "")
+			t.Fatal(m)
+		default:
+		}
+		vkit.Record(t.Name(), map[string]int{"round": round, "license": v, "goroutines": G}, vkit.OK(true, "authorize-concurrent"))
+	}
 }
